@@ -457,18 +457,6 @@ func (c *fileCtx) rewriteCall(ce *ast.CallExpr) {
 		return
 	}
 	rp, rt := recvTypeName(o)
-	if rt != "" {
-		for _, r := range c.cfg.Seams {
-			if r.RecvType == rt && r.Callee == rp && r.Name == o.Name() && (r.InPkg == "" || strings.HasSuffix(c.pkg.PkgPath, r.InPkg)) {
-				if se, ok := ce.Fun.(*ast.SelectorExpr); ok {
-					ce.Args = append([]ast.Expr{se.X}, ce.Args...)
-					ce.Fun = ast.NewIdent(r.Replace)
-					c.st.seam++
-					return
-				}
-			}
-		}
-	}
 	switch {
 	case o.Name() == "Go" && strings.HasSuffix(rp, "x/sync/errgroup") && rt == "Group" && len(ce.Args) == 1:
 		ce.Args[0] = call(sel("simrt", "WrapE"), lit(c.siteAt("eg", ce)), ce.Args[0])
@@ -489,6 +477,18 @@ func (c *fileCtx) rewriteCall(ce *ast.CallExpr) {
 			c.st.bolt++
 		} else {
 			c.warn = append(c.warn, fmt.Sprintf("%s: bolt %s with non-literal body", c.fset.Position(ce.Pos()), o.Name()))
+		}
+	}
+	if rt != "" {
+		for _, r := range c.cfg.Seams {
+			if r.RecvType == rt && r.Callee == rp && r.Name == o.Name() && (r.InPkg == "" || strings.HasSuffix(c.pkg.PkgPath, r.InPkg)) {
+				if se, ok := ce.Fun.(*ast.SelectorExpr); ok {
+					ce.Args = append([]ast.Expr{se.X}, ce.Args...)
+					ce.Fun = ast.NewIdent(r.Replace)
+					c.st.seam++
+					return
+				}
+			}
 		}
 	}
 }
